@@ -21,6 +21,18 @@ static MAX_SINGLE: AtomicU64 = AtomicU64::new(0);
 static VOLUME: AtomicU64 = AtomicU64::new(0);
 static NALLOC: AtomicU64 = AtomicU64::new(0);
 
+static TRACE_OVER: AtomicU64 = AtomicU64::new(u64::MAX);
+static TRACE_TEXT: std::sync::Mutex<String> = std::sync::Mutex::new(String::new());
+
+/// Diagnostics: remember the backtrace of the first counted allocation larger than `bytes`.
+pub fn trace_allocations_over(bytes: u64) {
+    TRACE_OVER.store(bytes, Ordering::SeqCst);
+}
+
+pub fn take_trace() -> String {
+    std::mem::take(&mut *TRACE_TEXT.lock().unwrap())
+}
+
 #[inline]
 fn charge(size: usize) {
     if !TRACK.load(Ordering::Relaxed) {
@@ -28,6 +40,17 @@ fn charge(size: usize) {
     }
     let counted = MODE.try_with(|m| m.get() != 1).unwrap_or(false);
     if counted {
+        if size as u64 > TRACE_OVER.load(Ordering::Relaxed) {
+            // capture outside the accounting: mark this thread as harness while we allocate
+            let prev = MODE.try_with(|m| m.replace(1)).unwrap_or(1);
+            let bt = std::backtrace::Backtrace::force_capture().to_string();
+            if let Ok(mut t) = TRACE_TEXT.try_lock() {
+                if t.is_empty() {
+                    *t = format!("allocation of {} bytes:\n{}", size, bt);
+                }
+            }
+            let _ = MODE.try_with(|m| m.set(prev));
+        }
         MAX_SINGLE.fetch_max(size as u64, Ordering::Relaxed);
         VOLUME.fetch_add(size as u64, Ordering::Relaxed);
         NALLOC.fetch_add(1, Ordering::Relaxed);
@@ -81,6 +104,22 @@ impl Drop for LibCall {
                 m.set(m.get() - 1)
             }
         });
+    }
+}
+
+/// RAII guard: code of the harness that runs on a library thread (failpoint hook) is not
+/// charged to the library.
+pub struct HarnessSection(u32);
+
+impl HarnessSection {
+    pub fn enter() -> HarnessSection {
+        HarnessSection(MODE.try_with(|m| m.replace(1)).unwrap_or(1))
+    }
+}
+
+impl Drop for HarnessSection {
+    fn drop(&mut self) {
+        let _ = MODE.try_with(|m| m.set(self.0));
     }
 }
 
